@@ -334,6 +334,18 @@ func genC03(r *Rand, tier string, i int) *h.Scenario {
 		p.MaxBars, p.MaxOps = 8, 20
 	}
 	sc := GenBase(r, &p)
+	// someone else ends the container while main is in Wait, or waits as well: no Wait returns
+	// before the output is complete
+	if len(sc.Clients) > 0 && !sc.Cont.UserWG {
+		switch who := r.Intn(len(sc.Clients)); r.Weighted(17, 1, 1, 1) {
+		case 1:
+			sc.Clients[who] = append(sc.Clients[who], h.Op{K: h.OpShutdown})
+		case 2:
+			sc.Clients[who] = append(sc.Clients[who], h.Op{K: h.OpWait})
+		case 3:
+			sc.Clients = append(sc.Clients, []h.Op{{K: h.OpSleep, D: genSleep(r, &sc.Cont)}, {K: h.OpWait}})
+		}
+	}
 	// the library's own counters are findable in the last frame
 	for b := range sc.Bars {
 		for _, l := range [][]h.DecSpec{sc.Bars[b].Pre, sc.Bars[b].App} {
@@ -370,10 +382,16 @@ func judgeC03(hi *Hist) []*Violation {
 			out = append(out, viol("C03", o, f, a...))
 		}
 	}
-	// no byte after Wait has returned (every mode)
+	// no byte after Wait has returned (every mode), whoever called it
 	for _, w := range hi.Writes {
 		if w.At > hi.WaitOut {
 			add("write-after-wait", "the output received %d bytes after Wait had returned: %q", len(w.Payload), clip(string(w.Payload), 120))
+		}
+		for _, op := range hi.Ops {
+			if op.Op.K == h.OpWait && op.Ret >= 0 && w.At > op.Ret {
+				note("c03_second_waiter_checked")
+				add("write-after-wait", "the output received %d bytes after a client's Wait had returned: %q", len(w.Payload), clip(string(w.Payload), 120))
+			}
 		}
 	}
 	if !AutoMode(hi.Sc) || hi.Sc.Cont.Delay {
@@ -381,7 +399,8 @@ func judgeC03(hi *Hist) []*Violation {
 	}
 	frames := ParseFrames(hi)
 	facts := Facts(hi)
-	relaxed := cancelled(hi) || faulted(hi)
+	isCancelled := cancelled(hi)
+	relaxed := isCancelled || faulted(hi)
 	if len(frames) == 0 {
 		if hi.Sc.Cont.Terminal && hi.Sc.Cont.TermH < 2 {
 			return out // a one-line terminal has no room for a row above the cursor's line
@@ -402,6 +421,11 @@ func judgeC03(hi *Hist) []*Violation {
 			add("bar-twice", "bar %d appears twice in the last frame: %s", g.Bar, last)
 		}
 		if g.Bar < 0 || g.Bar >= len(facts) || facts[g.Bar].Final == nil || g.Main < 0 {
+			continue
+		}
+		if isCancelled {
+			// a bar ended by a cancellation may have been drawn for the last time before it noticed
+			// (the statement quantifies over programs that finish their bars; C14 has the cancelled ones)
 			continue
 		}
 		fin := facts[g.Bar].Final
